@@ -9,11 +9,13 @@ import (
 	"strings"
 	"time"
 
+	v1 "github.com/fatedier/frp/pkg/config/v1"
 	"github.com/fatedier/frp/pkg/msg"
 	"github.com/fatedier/frp/pkg/util/util"
 
 	"verif/mc/drv"
 	"verif/mc/vs"
+	cw "verif/mc/worlds/cliworld"
 	sw "verif/mc/worlds/srvworld"
 )
 
@@ -158,8 +160,53 @@ func scPipe(kind string) func(x *vs.Exec) {
 	}
 }
 
+// pipe/client: the same on the client's side — the server writes the StartWorkConn frame and the first bytes of the
+// user's stream back to back; the real frpc must hand exactly the rest to the backend.
+func scPipeClient(x *vs.Exec) {
+	w := cw.New(x, cw.Opt{HeartbeatInterval: -1, NoPoolRequests: true, Proxies: []v1.ProxyConfigurer{cw.TCPProxy("a", 8000, 9000)}})
+	be := w.StartBackend(8000)
+	_ = be
+	for i := 0; i < 60; i++ { // (a Block predicate must not take locks: poll on the virtual clock instead)
+		if st, ok := w.Svc.StatusExporter().GetProxyStatus("a"); ok && st.Phase == "running" {
+			break
+		}
+		time.Sleep(500 * time.Millisecond)
+	}
+	se := w.Srv.LiveSession()
+	if se == nil {
+		vs.Fail("pipe/client: no live session")
+		return
+	}
+	n0 := len(se.Work)
+	w.Srv.SendTo(se, &msg.ReqWorkConn{})
+	if !vs.BlockFor("work-conn", 20*time.Second, func() bool { return len(se.Work) > n0 }) {
+		vs.Fail("pipe/client: the client did not open the work connection it was asked for")
+		return
+	}
+	wc := se.Work[n0]
+	var buf bytes.Buffer
+	msg.WriteMsg(&buf, &msg.StartWorkConn{ProxyName: "a", SrcAddr: "10.1.1.1", SrcPort: 5555, DstAddr: "127.0.0.1", DstPort: 9000})
+	payload := "FIRST-bytes-of-the-user-right-behind-the-frame"
+	buf.WriteString(payload)
+	wc.Write(buf.Bytes()) // one segment
+	if !vs.BlockFor("echo", 20*time.Second, func() bool { return wc.Pending() >= len(payload) || wc.PeerClosed() }) || wc.Pending() < len(payload) {
+		vs.Fail("user bytes sent in the same segment as the StartWorkConn frame did not reach the backend and come back (pending %d of %d, closed=%v): the client read past the frame", wc.Pending(), len(payload), wc.PeerClosed())
+	} else {
+		got := make([]byte, len(payload))
+		wc.Read(got)
+		if string(got) != payload {
+			vs.Fail("user bytes behind the StartWorkConn frame came back altered: %q", got)
+		}
+	}
+	wc.Close()
+	w.Svc.Close()
+}
+
 func scenarios() {
 	vs.ScenarioFactory = func(name string) *vs.Scenario {
+		if name == "pipe/client" {
+			return &vs.Scenario{Name: name, Horizon: 300 * time.Second, MaxSteps: 100000, NoEarlyTick: true, End: func(x *vs.Exec) string { return strings.Join(x.Obs, "\n") }, Body: scPipeClient}
+		}
 		if strings.HasPrefix(name, "pipe/") {
 			return &vs.Scenario{Name: name, Horizon: 300 * time.Second, MaxSteps: 100000, NoEarlyTick: true, End: sw.StdEnd, Body: scPipe(strings.TrimPrefix(name, "pipe/"))}
 		}
@@ -175,13 +222,13 @@ func main() {
 	if c == nil {
 		return
 	}
-	c.Rule(fmt.Sprintf("E1: %d kinds of malformed / unexpected first messages sent to the real frps on the virtual network (default schedule and all schedules with one deviation); the offending connection must be closed within the read timeout, the server dump unchanged, another session still answers heartbeats and serves traffic; first messages followed in the same segment by the connection's payload (visitor stream, early bytes of a work connection): the payload travels on, nothing is read past the frame", len(firsts)))
+	c.Rule(fmt.Sprintf("E1: %d kinds of malformed / unexpected first messages sent to the real frps on the virtual network (default schedule and all schedules with one deviation); the offending connection must be closed within the read timeout, the server dump unchanged, another session still answers heartbeats and serves traffic; first messages followed in the same segment by the connection's payload (visitor stream, early bytes of a work connection, and on the client's side the user's bytes behind a StartWorkConn frame): the payload travels on, nothing is read past the frame", len(firsts)))
 	i := 0
 	for name := range firsts {
 		c.Explore("first/"+name, drv.Pick(c, 1, 2), 1.0/float64(len(firsts)-i))
 		i++
 	}
-	for _, k := range []string{"visitor", "work"} {
+	for _, k := range []string{"visitor", "work", "client"} {
 		c.Explore("pipe/"+k, 1, 0.5)
 	}
 	c.Finish()
